@@ -4,6 +4,7 @@ package engines
 
 import (
 	"fmt"
+	"strings"
 	"time"
 
 	"github.com/hashicorp/nodeenrollment"
@@ -148,6 +149,16 @@ func propC03(r *kernel.Run) {
 				req.Bundle = b
 				req.BundleSignature = tp.Bytes(64)
 			}
+			if fieldCase != "key-of-other-algorithm" && tp.Draw(6) == 0 {
+				// the bundle fields meant for the library's own use are the node's to fill; they change nothing about what
+				// makes a request valid
+				info.Id = Pick2(tp, "some-other-record", id.KeyId, "x")
+				info.WrappingRegistrationFlowInfo = &types.WrappingRegistrationFlowInfo{Nonce: info.Nonce, CertificatePublicKeyPkix: info.CertificatePublicKeyPkix}
+				b, _ := proto.Marshal(info)
+				req.Bundle = b
+				req.BundleSignature = signWith(id, b)
+				r.Count("cfg.library_internal_fields_filled_by_node", 1)
+			}
 			if fieldsOK && tp.Draw(12) == 0 {
 				// timestamps a hand-written client can put into the bundle: absent, or with a nanosecond part outside
 				// [0, 1e9). What counts is the instant the library's own conversion (AsTime) yields: the model window is
@@ -189,6 +200,7 @@ func propC03(r *kernel.Run) {
 
 		// wire corruption
 		corrupt := "none"
+		pristine := req
 		if tp.Draw(2) == 0 {
 			req = proto.Clone(req).(*types.FetchNodeCredentialsRequest)
 			switch tp.Draw(7) {
@@ -235,6 +247,13 @@ func propC03(r *kernel.Run) {
 			r.Count("fault.wire."+corrupt, 1)
 		}
 
+		if strings.HasPrefix(corrupt, "signature-") && tp.Draw(3) == 0 {
+			// the untouched request was presented (and, if valid, processed) a moment ago: the same bundle arriving again
+			// with a damaged signature is judged on its own
+			kernel.Guard(func() { registration.FetchNodeCredentials(w.Ctx, w.Storage, pristine, opts...) })
+			corrupt += "-after-genuine-presentation"
+			r.Count("cfg.genuine_presentation_first", 1)
+		}
 		now := time.Now()
 		lo, hi := nb.Add(nbSkew), na.Add(naSkew)
 		inside := !now.Before(lo) && !now.After(hi)
